@@ -8,6 +8,61 @@ VERIF = os.path.dirname(os.path.dirname(os.path.abspath(__file__)))
 
 # property -> (technique, level text, level note, design ref)
 CLAIMED = {
+    'C01': (
+        'Hypothesis-generated writer programs, write->read round trip; '
+        'oracle = records constructed from the calls (model of the calls)',
+        'Random well-ordered programs of writer calls (15 codecs incl. '
+        'UTF-16/32 with and without BOM and EBCDIC, indents, line endings, '
+        'hostile content lines) are written with the real writer and read '
+        'with the real reader; every record is compared with what the calls '
+        'imply (id, level, options given or derived, content with the final '
+        'newline rule, metadata as a JSON value). Sampled, not exhaustive.',
+        'Trusted: dxv/spec.py expected_records and CPython codecs/json. '
+        'Ambiguous byte-level newline detection in multi-byte diffs accepts '
+        'the header\'s kind.',
+        'DESIGN.md section 5 C01'),
+    'C02': (
+        'Hypothesis-generated writer programs; oracle = independent '
+        'reference serializer (byte equality) + structural validator using '
+        'a strict reference parser',
+        'The same program generator as C01; writer output must equal, byte '
+        'for byte, a serializer written from the specification, and pass a '
+        'validator that walks the bytes (ASCII headers, grammar, sorted '
+        'options, legal order, exact length landing on the next header, '
+        'final newline, indentation after encoding, canonical JSON).',
+        'Trusted: dxv/spec.py ref_segments/ref_parse. Either ASCII-escaping '
+        'choice for JSON is accepted per metadata section.',
+        'DESIGN.md section 5 C02'),
+    'C03': (
+        'Hypothesis-generated foreign well-formed files + full catalogue of '
+        'single-defect mutations per file; oracle = records built with the '
+        'file, cross-checked by a strict reference parser; error line in '
+        'the offending section\'s span',
+        'An independent generator produces well-formed files the way other '
+        'producers may (option order, omitted optional options, blank '
+        'lines, CRLF headers, other JSON styles, no encoding) together with '
+        'the records the specification assigns; the real reader must give '
+        'exactly those (id, level, logical line, converted options, '
+        'content). Every applicable single spec violation of each file must '
+        'be rejected with a parse error inside the offending section, after '
+        'the intact prefix of records. The 7 spec example files are fixed '
+        'members.',
+        'Trusted: dxv/foreign.py render + dxv/spec.py ref_parse (they must '
+        'agree on every generated file, else exit 2).',
+        'DESIGN.md section 5 C03'),
+    'C04': (
+        'exhaustive enumeration of container nesting histories with '
+        'mutually incompatible codecs + Hypothesis histories; oracle = '
+        'nearest-ancestor scope model',
+        'Every history main -> (change -> file+)+ within the shape bound '
+        'with each container omitting or declaring one of two codecs, all '
+        'content inheriting, is written (bytes == reference) and read back '
+        'from both the writer\'s and the reference bytes; four pairwise '
+        'incompatible codecs make a wrong scope visible. Random deeper '
+        'histories with per-section overrides beyond the bound.',
+        'Trusted: dxv/spec.py Walker (scope model). Incompatibility of the '
+        'four codecs is verified at start-up.',
+        'DESIGN.md section 5 C04'),
     'C09': (
         'exhaustive enumeration of writer call sequences + Hypothesis '
         'sequences; oracle = independent transition table, per-step '
